@@ -484,7 +484,12 @@ class Run:
             elif kind == "disconnect":
                 self.nodes[op["up"]].disconnect(self.nodes[op["down"]])
             elif kind == "destroy":
-                self.nodes[op["node"]].destroy()
+                if "streams" in op:
+                    # node.destroy(streams=<selection>): cuts the selected incoming edges only (list or tuple spelling)
+                    sel = [self.nodes[u] for u in op["streams"]]
+                    self.nodes[op["node"]].destroy(streams=tuple(sel) if op.get("form") == "tuple" else sel)
+                else:
+                    self.nodes[op["node"]].destroy()
             elif kind == "start":
                 self.nodes[op["node"]].start()      # Stream.start() walks upstream ("start any upstream sources")
             elif kind == "restart":
